@@ -4,7 +4,7 @@ LEVEL = 'other'
 CONTRACT_MODULES = ['contracts.time_utils', 'contracts.catalogs']
 CONE = ['csep.utils.time_utils.epoch_time_to_utc_datetime', 'csep.utils.time_utils.datetime_to_utc_epoch', 'lemma:csep.utils.time_utils.round_trips',
         'csep.core.catalogs.AbstractBaseCatalog.from_dict', 'csep.core.catalogs.AbstractBaseCatalog.to_dict']
-ORACLE_MODULES = ['rt.oracles_io']
+ORACLE_MODULES = ['rt.oracles_io', 'rt.oracles_time']
 BOUNDED = os.path.exists(os.path.join(os.path.dirname(__file__), '..', 'rt', 'bounded_C14.py'))
 FLOAT_MODEL = 'E for the time conversions (see C15); concrete executions otherwise'
 TRUSTED = ['the oracles in rt/ compute the expected outcome from the property statement, independently of the code under test', 'pyvc engine, z3 5.1']
